@@ -104,8 +104,10 @@ def step' (s : St) (toks : List String) : St × List String :=
   | ["recover", rows, off, ents, torn] => match parseNatList? rows, off.toNat?, parseEnts ents, torn.toNat? with
     | some rows, some off, some l, some t =>
       if t == 1 then
-        let s0 := init true false [] (total (mkRecs 0 l))
-        (s, [(step { s0 with com := ⟨rows, off⟩ } (.crash s0.len true)).2])
+        let recs := mkRecs 0 l
+        let s0 := init true false [] (total recs)
+        let s1 := { s0 with com := ⟨rows, off⟩, tx := ⟨rows, off⟩, dbo := off, done := upTo off recs, rest := above off recs }
+        (s, [(step s1 (.crash s1.len true)).2])
       else (s, [recover rows off l])
     | _, _, _, _ => (s, ["bad-op"])
   | _ => (s, ["bad-op"])
